@@ -190,7 +190,7 @@ pub(crate) fn apply_rules_on_link(
         .intersection(&product_paths)
         .cloned()
         .filter_map(|name| {
-            if src_link.materials[&name] != src_link.products[&name] {
+            if src_link.materials.get(&name) != src_link.products.get(&name) {
                 Some(name)
             } else {
                 None
